@@ -186,7 +186,7 @@ def main(argv=None):
 
     distinct = len(tot["distinct"]) + tot["distinct_count_extra"]
     min_events = getattr(mod, "MIN_EVENTS", {})
-    for name, need in min_events.items():
+    for name, need in ({} if args.replay else min_events).items():
         need = need[tier] if isinstance(need, dict) else need
         if tot["counters"].get(name, 0) < need:
             tot["inconclusive"].append(
